@@ -350,3 +350,8 @@ func rootName(e ast.Expr) string {
 		}
 	}
 }
+
+type constantValue = constant.Value
+
+func makeInt(n int64) constant.Value { return constant.MakeInt64(n) }
+func boolVal(v constant.Value) bool  { return v.Kind() == constant.Bool && constant.BoolVal(v) }
